@@ -78,4 +78,17 @@ MUTANTS = [
       (VT, "        for i,t,v in self:\n            if v is None:\n                self[t] = value", "        for i,t,v in self:\n            if v is None or i==len(self.types)-1:\n                self[t] = value")),
     M('table-listify-tuple-as-single', ['C14'],
       ('pyPRISM/core/Table.py', "        if isinstance(values,str):", "        if isinstance(values,(str,tuple)):")),
+    # ------------------------------------------------------------------ C15 Density / Diameter
+    M('dens-total-accumulates', ['C15'],
+      (DENS, "            self.total = 0.\n", "            self.total = 0. if t1==self.types[0] else self.total - (0. if self.total is None else 0.)\n")),
+    M('dens-site-offdiag-first-write-only', ['C15'],
+      (DENS, "                    self.site[t1,t2] = [rho1 + rho2]", "                    if self.site[t1,t2][0]==0.0: self.site[t1,t2] = [rho1 + rho2]")),
+    M('dens-pair-row-only-upper', ['C15'],
+      (DENS, "                self.pair[t1,t2] = [rho1*rho2]", "                if self.types.index(t1)<=self.types.index(t2) or self.pair[t1,t2][0]==0.0: self.pair[t1,t2] = [rho1*rho2]")),
+    M('diam-volume-d2', ['C15'],
+      (DIAM, "self.volume[t1] = (4.0/3.0) * np.pi * (d1/2.0)**(3.0)", "self.volume[t1] = (4.0/3.0) * np.pi * (d1/2.0)**(2.0) * (d1/2.0 if d1==1.0 else 0.5)")),
+    M('diam-sigma-first-write-only', ['C15'],
+      (DIAM, "                self.sigma[t1,t2] = (d1 + d2)/2.0", "                if self.sigma[t1,t2] is None or t1==t2: self.sigma[t1,t2] = (d1 + d2)/2.0")),
+    M('dens-check-skips', ['C15'],
+      (DENS, "        self.density.check()", "        if self.density[self.types[0]] is None: self.density.check()")),
 ]
